@@ -1,0 +1,20 @@
+//go:build verif
+// +build verif
+
+package tool
+
+// Contracts for package tool (consumed by /verif/govc; comment-only file).
+
+//@ func BinarySearch
+//@   props C08
+//@   arith int
+//@   requires sortedDesc(re) && allNonNil(re)
+//@   ensures  inspos: 0 <= insertPos(result.0, result.1) && insertPos(result.0, result.1) <= len(re)
+//@   ensures  left:  forall i :: 0 <= i && i < insertPos(result.0, result.1) ==> re[i].Salience >= salience
+//@   ensures  right: forall i :: insertPos(result.0, result.1) <= i && i < len(re) ==> re[i].Salience <= salience
+//@   modifies nothing
+//@   nopanic
+//@   loop 0 invariant bounds: 0 <= low && low <= high + 1 && high + 1 <= len(re)
+//@   loop 0 invariant left:   forall i :: 0 <= i && i < low ==> re[i].Salience > salience
+//@   loop 0 invariant right:  forall i :: high < i && i < len(re) ==> re[i].Salience < salience
+//@   loop 0 decreases high - low + 1
